@@ -532,6 +532,14 @@ func (t *wScreen) SetTitle(title string) {
 	js.Global().Call("setTitle", title)
 }
 
+// SetClipboard is not supported by the web terminal; the request is ignored,
+// as the Screen interface permits.
+func (t *wScreen) SetClipboard([]byte) {}
+
+// GetClipboard is not supported by the web terminal; the request is ignored,
+// as the Screen interface permits.
+func (t *wScreen) GetClipboard() {}
+
 // WebKeyNames maps string names reported from HTML
 // (KeyboardEvent.key) to tcell accepted keys.
 var WebKeyNames = map[string]Key{
